@@ -190,7 +190,8 @@ pub fn byte_soup(rng: &mut Rng, max_len: usize) -> String {
 pub const FAMILIES: &[&str] = &[
     "seq-ifdef", "nested-ifdef", "seq-ifdef-else", "nested-ifdef-else", "ifdef-elseif-chain", "nested-parens", "nested-brackets", "nested-begin", "nested-anon",
     "op-chain", "param-list", "many-statements", "anon-arg-calls", "nested-if-then", "nested-case", "unterminated-parens", "nested-if-expr-directive",
-    "long-call-args", "nested-generics", "class-members",
+    "long-call-args", "nested-generics", "class-members", "nested-for-long-header", "else-if-chain-long-cond", "nested-while-long-cond", "nested-if-long-cond",
+    "nested-with-on-long",
 ];
 
 pub fn family(name: &str, n: usize) -> String {
@@ -309,6 +310,44 @@ pub fn family(name: &str, n: usize) -> String {
                 s.push_str(&format!("      Foo{i}(Aaaaaaaaaa(Bbbbbbbbbb, Cccccccccc(Dddddddd, Eeeeeeee)), Ffffffffff(Gggggggg, Hhhhhhhh(Iiiiiiii)));\n"));
             }
             s.push_str("    end);\nend.\n");
+        }
+        // chains of directly nested begin-less statements whose headers do not fit the line: every
+        // level is the lone child line of the previous one and has several ways to be wrapped
+        "nested-for-long-header" => {
+            s.push_str("procedure P;\nbegin\n");
+            for i in 0..n {
+                s.push_str(&format!("  for var Index{i} := ComputeTheLowerBound(ArgumentNumberOne{i}, ArgumentNumberTwo{i}) to ComputeTheUpperBound(ArgumentNumberOne{i}, ArgumentNumberTwo{i}) do\n"));
+            }
+            s.push_str("  DoIt;\nend;\n");
+        }
+        "else-if-chain-long-cond" => {
+            s.push_str("procedure P;\nbegin\n");
+            for i in 0..n {
+                s.push_str(if i == 0 { "  if " } else { "  else if " });
+                s.push_str(&format!("(ConditionNumberOne{i} and ConditionNumberTwo{i}) or (ConditionNumberThree{i} and ConditionNumberFour{i}) or ConditionNumberFive{i} then\n    DoSomething({i})\n"));
+            }
+            s.push_str("  else\n    DoNothing;\nend;\n");
+        }
+        "nested-while-long-cond" => {
+            s.push_str("procedure P;\nbegin\n");
+            for i in 0..n {
+                s.push_str(&format!("  while (ConditionNumberOne{i} and ConditionNumberTwo{i}) or (ConditionNumberThree{i} and ConditionNumberFour{i}) or ConditionNumberFive{i} or Six{i} do\n"));
+            }
+            s.push_str("  DoIt;\nend;\n");
+        }
+        "nested-if-long-cond" => {
+            s.push_str("procedure P;\nbegin\n");
+            for i in 0..n {
+                s.push_str(&format!("  if SomeFunction{i}(ArgumentNumberOne{i}, ArgumentNumberTwo{i}, ArgumentNumberThree{i}) and AnotherFunction{i}(ArgumentNumberOne{i}, ArgumentNumberTwo{i}) then\n"));
+            }
+            s.push_str("  DoIt;\nend;\n");
+        }
+        "nested-with-on-long" => {
+            s.push_str("procedure P;\nbegin\n  try\n    Foo;\n  except\n    on E: Exception do\n");
+            for i in 0..n {
+                s.push_str(&format!("  with SomeObject{i}.SomeProperty{i}.AnotherProperty{i}, AnotherObject{i}.SomeProperty{i}.YetAnotherProperty{i}.AndOneMore{i}, Third{i} do\n"));
+            }
+            s.push_str("  DoIt;\n  end;\nend;\n");
         }
         "nested-if-then" => {
             s.push_str("begin\n");
